@@ -24,6 +24,7 @@ import Mhd.Proofs.ReqLine
 import Mhd.Proofs.ReqField
 import Mhd.Proofs.ReqStable
 import Mhd.Proofs.ReqRoundtrip
+import Mhd.Proofs.ReqRoundtripNC
 import Mhd.Proofs.ReqLineRoundtrip
 import Mhd.Proofs.ReqLineRoundtripNC
 import Mhd.Proofs.ReqTargetRT
@@ -34,6 +35,7 @@ import Mhd.Proofs.ReqLineRoundtripBlk
 import Mhd.Proofs.ReqLinePost
 import Mhd.Proofs.ReqCookie
 import Mhd.Proofs.ReqLookup
+import Mhd.Proofs.ReqTargetExt
 
 namespace Mhd.C02
 open Mhd.Req
@@ -170,11 +172,14 @@ theorem strings_stable (lvl : Int) (fieldStart : Nat) (s : HS) (hs : HSP.Inv s) 
     LF) with percent/plus decoding of the target in every admissible encoding;
   * `reqline_target_roundtrip_all_levels_partial` — the same at **every** level, with whitespace
     blocks (SP / HT / VT / FF) as separators at levels < 0.
+  * `fields_roundtrip_nc_partial` — field lines in every non-canonical rendering the levels accept
+    (whitespace around the value and before the colon, obs-folds, bare LF, empty section).
   Missing for the full statement (carried by the correspondence run only — bounded-exhaustive
-  white-box differential + the daemon engine with rendered requests and the semantic oracle):
-  for the request line at levels < 0 the renderings with whitespace inside the URI and with a
-  bare CR (kept / replaced by a space); for field lines the non-canonical renderings (optional whitespace
-  around field values, folding, bare CR / NUL replacement, bare LF); cookie exactness. -/
+  white-box differential + the daemon engine with rendered requests and the semantic oracle),
+  all at lenient levels: request line at levels < 0 with whitespace inside the URI or a bare
+  CR (kept / replaced by a space); field lines with a bare CR or NUL inside (replaced by a
+  space / kept), with whitespace inside or an empty name, without colon, or starting with
+  whitespace (levels ≤ −1 / −2); the lenient cookie renderings (`okLax`). -/
 
 /-- a request-line token character: not CR, LF, SP, HT, VT, FF, NUL -/
 abbrev TokenChar := RLP.rplain
@@ -232,6 +237,42 @@ theorem fields_roundtrip_partial (lvl : Int) (fieldStart : Nat) (fields : List H
   obtain ⟨h, h1, h2, h3, h4, _⟩ := hx
   exact ⟨h, by rw [Scanner.feedAll_flatten (HSP.hsLaws _ fieldStart) chunks s hs]; exact h1, h2, h3, h4⟩
 
+
+/-- **Field lines in every non-canonical rendering the level accepts: the application sees
+    exactly the fields sent.**  Every level, any segmentation, any number of fields (none:
+    the empty header section).  A rendering `HSP.FieldR` of a field chooses
+    * whitespace (SP / HT) between name and colon — levels ≤ −3 (`allowWspBeforeColon`); it is
+      removed from the name;
+    * the value part as a list of tokens `HSP.VTok`: value bytes (anything but CR LF SP HT NUL),
+      whitespace bytes anywhere — after the colon, inside, before the line end —, and obs-folds
+      (a line end followed by SP / HT) anywhere — levels ≤ 0 (`allowFolded`);
+    * the line end: CR LF, or a bare LF at levels ≤ 0 (`HSP.FEol`); likewise for the empty line
+      `endEol` that ends the section.
+    `HSP.FieldR.ok` is the (decidable) side condition.  The value the application must see is
+    `HSP.FieldR.semValue`: in the token bytes **every byte of the line end of an obs-fold is
+    replaced by a space** (CR LF → two spaces, bare LF → one; the whitespace that starts the
+    continuation line is kept), then whitespace is trimmed on both sides.  Then header parsing
+    finishes, the element list grows by exactly one element per field — in order, with
+    multiplicity —, name and value read back from the final buffer as `name` / `semValue`;
+    all strings lie below `read_buffer`; `header_size` counts exactly the bytes of the head.
+    Missing for the full statement (correspondence only), all at lenient levels: a bare CR
+    inside a value (a space at −1, −2; kept at −3) and a NUL inside a line (a space at
+    levels ≤ −1); lines starting with whitespace (discarded, ≤ −1); whitespace inside or an
+    empty field name, lines without colon (skipped) at levels ≤ −2. -/
+theorem fields_roundtrip_nc_partial (lvl : Int) (fieldStart : Nat) (fields : List HSP.FieldR) (endEol : List UInt8) (s : HS)
+    (chunks : List Bytes) (hs : HSP.Inv s) (hs2 : HSP.Inv2 s) (hfresh : HSP.Fresh s)
+    (hok : ∀ f ∈ fields, f.ok (FLFlags.ofLevel lvl)) (hend : HSP.FEol (FLFlags.ofLevel lvl) endEol)
+    (hbuf : HSP.BufIs (s.buf ++ Scanner.flatten chunks) s.rb (HSP.renderFieldsR fields ++ endEol)) :
+    let sc := hsScanner (FLFlags.ofLevel lvl) fieldStart
+    ∃ h : Headers, sc.feedAll (sc.run s) chunks = .done (.ok h) ∧ HSP.Below h s.version ∧
+      (∃ els, h.elems = s.elems ++ els ∧
+        els.map (HSP.elemView h.buf) = fields.map (fun f => (Mhd.Gen.Http.kindHeader, f.name, some f.semValue))) ∧
+      h.headerSize = s.rb + (HSP.renderFieldsR fields).length + endEol.length - s.method := by
+  intro sc
+  have hx := HSP.fields_roundtrip_nc (FLFlags.ofLevel lvl) fieldStart fields endEol (hsExtend s (Scanner.flatten chunks))
+    ⟨hs.ext _, hs2.ext _⟩ ⟨hfresh.p, hfresh.f1, hfresh.f2, hfresh.f3, hfresh.f4⟩ hok hend hbuf
+  obtain ⟨h, h1, h2, h3, h4, _⟩ := hx
+  exact ⟨h, by rw [Scanner.feedAll_flatten (HSP.hsLaws _ fieldStart) chunks s hs]; exact h1, h2, h3, h4⟩
 
 /-! ## (5) request target and arguments: `process_request_target`, `MHD_parse_arguments_`,
    `MHD_unescape_plus`, the strict / lenient in-place percent decoders
@@ -469,6 +510,15 @@ theorem get_request_line_no_fault (F : RLFlags) (strict : Bool) (pool : Nat) (bu
       simp only [getRequestLineOuter, hT]
       cases lineWspCheck F pool r <;> (intro h'; cases h')
 
+/-- **`process_request_target` does not depend on what has been received behind the request
+    line**: success on `r.buf` gives the identical record on `r.buf ++ e` (same URL, same
+    argument slices, same raw target), the result buffer being the old one followed by `e`
+    untouched — although the loop fuel of the model is a function of the buffer size. -/
+theorem target_buffer_extension (strict : Bool) (r : ReqLine) (e : Bytes) (T : Target)
+    (h : processRequestTarget strict r = .ok T) :
+    processRequestTarget strict { r with buf := r.buf ++ e } = .ok { T with buf := T.buf ++ e } :=
+  TGT.processRequestTarget_buffer_extension strict r e T h
+
 /-! ## (7) cookies: `parse_cookies_string`, `parse_cookie_header` -/
 
 /-- **`parse_cookies_string` never faults**: every flag combination, every byte array with the
@@ -694,5 +744,11 @@ example :
     (lookupElem buf els 1 [65, 99, 99, 101, 112, 116]).map (·.value) = some (some ⟨0, 26, 1⟩) ∧
     lookupElem buf els 1 [65, 99, 99, 101, 112] = none ∧ lookupElem buf els 1 [65, 99, 99, 101, 112, 116, 120] = none := by
   decide
+
+/-- a field in a non-canonical rendering accepted at level 0: "X-A:\tva\r\n l  \n" (HT after the colon, one obs-fold,
+    trailing spaces, bare LF): the application must see "va   l"; the same rendering is refused at level 1; whitespace
+    before the colon is accepted at level −3 only -/
+example : HSP.exFieldR.ok (FLFlags.ofLevel 0) ∧ ¬ HSP.exFieldR.ok (FLFlags.ofLevel 1) ∧
+    HSP.exFieldR.semValue = [118, 97, 32, 32, 32, 108] := by decide
 
 end Mhd.C02
